@@ -744,7 +744,7 @@ var docs = []func() *ld.Case{
 
 func run(s *core.Shard) {
 	rng := s.Rand("sequences")
-	n := s.Pick(2000, 40000)
+	n := s.Pick(2000, 16000)
 	for i := 0; i < n; i++ {
 		sc := seqCase{Source: "filled", ProjSeed: int64(i / 4), NSvc: 1 + (i/4)%6}
 		if i%10 == 9 {
